@@ -244,6 +244,9 @@ func (ex *Exec) instr(fr *Frame, st *State, in ssa.Instruction) {
 		}
 		n := t.Type().Underlying().(*types.Pointer).Elem().Underlying().(*types.Array).Len()
 		ex.event(Event{Kind: EvIndex, Pos: t.Pos(), Term: sv.Len, Msg: fmt.Sprintf("slice-to-array-pointer needs len >= %d", n)})
+		if _, isC := sv.Len.Int64(); !isC {
+			ex.bound(sym.ConstI(n), sv.Len, false, t.Pos(), "array length <= slice length")
+		}
 		if l, ok := sv.Len.Int64(); ok && l < n {
 			ex.event(Event{Kind: EvIndexOOB, Pos: t.Pos(), Term: sv.Len, Msg: fmt.Sprintf("slice of length %d converted to array pointer of length %d", l, n)})
 		}
@@ -314,6 +317,17 @@ func (ex *Exec) checkIndex(st *State, idx, length *sym.Term, pos token.Pos) {
 	if ok1 && ok2 && (i < 0 || i >= l) {
 		ex.event(Event{Kind: EvIndexOOB, Pos: pos, Term: idx, Msg: fmt.Sprintf("index %d out of range for length %d", i, l)})
 	}
+	if !(ok1 && ok2) {
+		ex.bound(idx, length, true, pos, "index < length")
+		if !ok1 {
+			ex.bound(sym.ConstI(0), idx, false, pos, "0 <= index")
+		}
+	}
+}
+
+// bound records a run-time bounds check a (< | <=) b that constant propagation did not settle.
+func (ex *Exec) bound(a, b *sym.Term, strict bool, pos token.Pos, what string) {
+	ex.event(Event{Kind: EvBound, Pos: pos, Term: a, Bound: b, Strict: strict, Msg: what})
 }
 
 func (ex *Exec) storeTyped(st *State, p *Ptr, val Val, t types.Type, pos token.Pos) {
@@ -436,13 +450,21 @@ func (ex *Exec) binop(st *State, op token.Token, xv, yv Val, xt types.Type, pos 
 			return r
 		}
 	}
+	// arithmetic in types narrower than 64 bits wraps around (64-bit lengths and indices are
+	// treated as mathematical integers: they stay far below 2^63 in this code base)
+	narrow := func(t *sym.Term) *sym.Term {
+		if bits > 0 && bits < 64 && !signed && x.Sort != sym.Bool && y.Sort != sym.Bool {
+			return Trunc(bits, t)
+		}
+		return t
+	}
 	switch op {
 	case token.ADD:
-		return sym.Add(x, y)
+		return narrow(sym.Add(x, y))
 	case token.SUB:
-		return sym.Sub(x, y)
+		return narrow(sym.Sub(x, y))
 	case token.MUL:
-		return sym.Mul(x, y)
+		return narrow(sym.Mul(x, y))
 	case token.EQL:
 		return sym.Eq(x, y)
 	case token.NEQ:
@@ -868,6 +890,15 @@ func (ex *Exec) sliceOp(fr *Frame, st *State, t *ssa.Slice) Val {
 		if !bnd.IsConst() {
 			ex.event(Event{Kind: EvIndex, Pos: t.Pos(), Term: bnd, Msg: "slice bound"})
 		}
+	}
+	if !(lo.IsConst() && hi.IsConst()) {
+		ex.bound(lo, hi, false, t.Pos(), "slice low <= high")
+	}
+	if !lo.IsConst() {
+		ex.bound(sym.ConstI(0), lo, false, t.Pos(), "0 <= slice low")
+	}
+	if !(hi.IsConst() && capacity.IsConst()) && hi != capacity {
+		ex.bound(hi, capacity, false, t.Pos(), "slice high <= capacity")
 	}
 	if l, ok := lo.Int64(); ok {
 		if h, ok := hi.Int64(); ok {
